@@ -997,7 +997,7 @@ Lemma w_block_spec sc t1 hash txs h t2 :
   exists tb invalid, BL t1 txs tb /\ (forall u, In u invalid -> memN (fst u) txs = true) /\
     db_apps t2 = del invalid (db_apps tb) /\
     db_trks t2 = filter (fun k => negb (mem_uuid (trk_uuid k) invalid)) (db_trks tb) /\
-    db_users t2 = db_users tb /\ reorged t2 = reorged tb /\ r_index t2 = r_index tb.
+    db_users t2 = db_users tb /\ reorged t2 = reorged tb /\ r_index t2 = r_index tb /\ gk_height t2 = gk_height tb.
 Proof.
   unfold w_block_connected. destruct (ti_update (w_cache t1) (cache_block hash txs)) as [c|]; [|discriminate].
   rewrite keys_cache_block.
@@ -1010,7 +1010,7 @@ Proof.
   destruct (breach_loop_BL sc t1 txs _ _ _ _ _ Hds HB0 Hinv0 Eb) as [HB Hinv].
   intros Hrun. exists tb, invalid. split; [exact HB|]. split; [exact Hinv|].
   destruct invalid as [|i0 is].
-  - cbn [bind] in Hrun. inversion Hrun; subst; clear Hrun. cbn [db_apps db_trks db_users reorged r_index set_w_height].
+  - cbn [bind] in Hrun. inversion Hrun; subst; clear Hrun. cbn [db_apps db_trks db_users reorged r_index gk_height set_w_height].
     split; [symmetry; apply del_nil|]. split; [symmetry; apply filter_true; intros; reflexivity|]. repeat split.
   - unfold gk_delete_appointments in Hrun. cbn [bind] in Hrun. inversion Hrun; subst; clear Hrun. repeat split.
 Qed.
